@@ -91,7 +91,7 @@ def run(ctx):
     drift = []
     rej = collections.Counter()
     if "model-build" not in ctx["broken"]:
-        sub = sorted(R.sample(range(len(cases)), min(len(cases), 4000 if tier == "quick" else 20000)))
+        sub = sorted(R.sample(range(len(cases)), (min(len(cases), 4000) if tier == "quick" else len(cases))))
         mres = Model().run([case_model(cases[i]) for i in sub])
         for i, m in zip(sub, mres):
             if "bad" in m:
